@@ -6,6 +6,7 @@ PROP = "C09"
 LEVEL = "exploration"
 SHARDS = {"quick": 8, "thorough": 16}
 TIMEOUT = {"quick": 900, "thorough": 7200}
+THOROUGH_MULT = 4   # thorough budgets below are multiplied by this (sized for roughly five minutes on 16 cores)
 REQUIRED = {"pubkey": 1500, "wif_roundtrip": 6000, "reject_scalar": 300, "reject_sec": 600}
 ANCHORS = ['keys:PrivateKey.__init__', 'keys:PrivateKey.wif', 'keys:PrivateKey.from_wif', 'keys:PublicKey.parse', 'keys:PublicKey.sec']
 RULE = ("scalars from boundary classes (1, 2, n-1, n-2, 2^k, 2^k-1, 1..31 leading zero bytes, near n, random) x 4 WIF flavours "
